@@ -843,9 +843,9 @@ where
 		// candidate it replaces, never any other existing output
 		Some(key_id) => match wallet.get(&key_id, &None) {
 			Ok(o) if o.is_coinbase && o.status == OutputStatus::Unconfirmed => o.key_id,
-			_ => keys::next_available_key(wallet, keychain_mask)?,
+			_ => keys::next_available_key(wallet, keychain_mask, &parent_key_id)?,
 		},
-		None => keys::next_available_key(wallet, keychain_mask)?,
+		None => keys::next_available_key(wallet, keychain_mask, &parent_key_id)?,
 	};
 
 	{
